@@ -48,10 +48,10 @@ class Analyzer:
         self.cname = cname
         self.returns = []   # (lineno, AV, conds)
         self.depth = 0
-    def run(self, fn, env, conds=()):
+    def run(self, fn, env, conds=(), share=False):
         """execute function body; return joined AV of returns"""
         saved = self.returns; self.returns = []
-        env = dict(env)
+        if not share: env = dict(env)
         self.block(fn.body, env, list(conds))
         rets = self.returns; self.returns = saved
         return rets
@@ -59,14 +59,20 @@ class Analyzer:
         if self.depth > 8: return cat_all(list(argavs) + list(kwavs.values()))
         self.depth += 1
         try:
-            env = dict(closure_env or {})
+            shared = closure_env is not None
+            env = closure_env if shared else {}
             params = [a.arg for a in fn.args.posonlyargs + fn.args.args]
+            saved = {p: env.get(p) for p in params + [a.arg for a in fn.args.kwonlyargs]} if shared else {}
             if selfav is not None and params and params[0] in ('self', 'cls'):
                 env[params[0]] = selfav; params = params[1:]
             for p in params + [a.arg for a in fn.args.kwonlyargs]: env[p] = EMPTY
             for p, a in zip(params, argavs): env[p] = a
             for k, a in kwavs.items(): env[k] = a
-            rets = self.run(fn, env)
+            rets = self.run(fn, env, share=shared)
+            if shared:
+                for p, v in saved.items():
+                    if v is None: env.pop(p, None)
+                    else: env[p] = v
             if not rets: return EMPTY
             out = rets[0][1]
             for r in rets[1:]:
@@ -81,7 +87,10 @@ class Analyzer:
         if isinstance(e, ast.Attribute):
             if isinstance(e.value, ast.Name) and e.value.id == 'self' and self.is_self(env):
                 return AV({e.attr: frozenset()})
-            return self.ev(e.value, env).flat()
+            base = self.ev(e.value, env).flat()
+            if '*' in base.d and len(base.d) == 1:
+                return AV({e.attr: frozenset()})
+            return base
         if isinstance(e, ast.JoinedStr): return cat_all(self.ev(v, env) for v in e.values)
         if isinstance(e, ast.FormattedValue): return self.ev(e.value, env)
         if isinstance(e, ast.BinOp): return cat(self.ev(e.left, env), self.ev(e.right, env))
@@ -129,7 +138,12 @@ class Analyzer:
                 if m is not None and f.attr not in ('rebuild',):
                     if f.attr in ('rebuild_scoped', 'model_copy', 'has_scope'):
                         return AV({'*': frozenset()})
-                    return self.call_fn(m[1], args, kw, selfav=AV({'*': frozenset()}))
+                    impls = [m[1]] + [P.funcs[f"{c}.{f.attr}"][1] for c in P.subclasses(self.cname) if c != m[2] and f"{c}.{f.attr}" in P.funcs]
+                    outs = [self.call_fn(fn_, args, kw, selfav=AV({'*': frozenset()})) for fn_ in impls]
+                    outs = [o for o in outs if o.labels()] or outs
+                    acc = outs[0]
+                    for o in outs[1:]: acc = join(acc, o, ('dispatch', e.lineno), frozenset(['<multi-return>']))
+                    return acc
             r = self.ev(recv, env).flat()
             return cat_all([r] + args + list(kw.values()))
         return cat_all(args + list(kw.values()))
@@ -248,12 +262,13 @@ def check(cname):
     an = Analyzer(cname)
     rets = an.run(m[1], {'self': AV({'*': frozenset()})})
     print(f"== {cname} ({m[2]}.rebuild) content={content} returns={len(rets)}")
-    for ln, av, conds in rets:
+    for ordinal, (ln, av, conds) in enumerate(sorted(rets, key=lambda r: r[0])):
+        ln = f"{ln}#{ordinal}"
         av = av.flat()
         if '*' in av.d and not av.d['*']: continue
         for f in content:
-            if f in av.d:
-                for (site, br, tl) in av.d[f]:
+            if f in av.d or '*' in av.d:
+                for (site, br, tl) in av.d.get(f, av.d.get('*', ())):
                     if f in tl or '<multi-return>' in tl: continue
                     contentish = [x for x in tl if x in content]
                     tag = 'LAYOUT-DROP' if not contentish else 'content-drop'
